@@ -43,3 +43,5 @@ open Pandora.C14 Pandora.Interp
 #print axioms Pandora.C14Kernels.occlusionSgm_generated_eq
 #print axioms Pandora.C14Kernels.sumBand2_eq
 #print axioms Pandora.C14Kernels.mismatchSgm_generated_eq
+#print axioms Pandora.C14Kernels.rowMask_eq
+#print axioms Pandora.C14Kernels.occlusionMcCnn_generated_eq
